@@ -206,7 +206,7 @@ pub fn gen_truth(ch: &mut Chooser, max_vars: usize) -> Truth {
             1 => (false, true),
             _ => (true, true),
         };
-        let src = if ch.chance(1, 4) { 1 + ch.below(VALUE_SOURCES.len()) as u8 } else { 0 };
+        let src = if ch.chance(1, 4) { 1 + ch.below(VALUE_SOURCES.len() + 3) as u8 } else { 0 };
         vars.push(Var { slot, kind, read, write, src });
     }
     Truth {
@@ -224,6 +224,19 @@ pub fn gen_truth(ch: &mut Chooser, max_vars: usize) -> Truth {
 fn value(b: &mut B, v: &Var, n: usize, addr: bool) {
     if v.src == 0 {
         arg(b, n, addr);
+    } else if v.src as usize > VALUE_SOURCES.len() {
+        // a word copied into memory from the code, the return data or the call data, then loaded
+        let copy = [asm::CODECOPY, asm::RETURNDATACOPY, asm::CALLDATACOPY][(v.src as usize - VALUE_SOURCES.len() - 1) % 3];
+        b.push(W::from_u64(32));
+        b.push(W::ZERO);
+        b.push(W::ZERO);
+        b.emit(copy);
+        b.push(W::ZERO);
+        b.emit(asm::MLOAD);
+        if addr {
+            b.push(mask(160));
+            b.emit(asm::AND);
+        }
     } else {
         b.emit(VALUE_SOURCES[(v.src as usize - 1) % VALUE_SOURCES.len()]);
         if addr {
